@@ -454,74 +454,76 @@ def rule_text(facts, rep):
 
 def rule_lines(facts, rep):
     """split_lines: every run is cut at each LF, a CR directly before the LF is dropped, nothing else is dropped, pieces keep
-    their run's style and their order, and an unterminated last line is kept."""
+    their run's style and their order, and an unterminated last line is kept — decided by evaluating the function (lib/abseval.py,
+    concrete strings) on every list of up to two runs over the tokens {a, b, LF, CR, CRLF, ""} and comparing with this model."""
+    import abseval
+    import itertools
     b = facts.body("anstyle_svg", V + "split_lines")
     rep.fn(b["path"])
-    fl = [l for l in (hir.for_loop(x) for x in hir.walk(b["hir"]) if x.get("k") == "match" and x.get("src") == "ForLoopDesugar") if l]
-    ok = len(fl) == 1
-    style = nxt = None
-    if ok:
-        pat, it, body = fl[0]
-        it = hir.simp(it)
-        ok = hir.is_call(it, "Iterator::map") and hir.is_call(hir.simp(it["args"][0]), "iter") and hir.is_local(hir.simp(it["args"][0])["args"][0], "styled")
-        clo = hir.simp(it["args"][1]) if ok else {}
-        if ok and clo.get("k") == "closure":
-            t = hir.simp(clo["body"])
-            ok = t.get("k") == "tuple" and len(t["es"]) == 2 and hir.is_call(hir.simp(t["es"][1]), "as_str")
-        if pat.get("k") == "ptuple":
-            style, nxt = pat["pats"][0].get("name"), pat["pats"][1].get("name")
-    rep.check(ok and style and nxt, "lines", b["path"], "walks-the-runs-in-order", "for (style, text) in styled.iter().map(|(s, t)| (*s, t.as_str()))", loc(b))
-    if not (ok and style and nxt):
-        return
-    wl = [hir.while_loop(x) for x in hir.walk(body) if x.get("k") == "loop" and x.get("src") == "While"]
-    okc = False
-    cur = rem = None
-    if len(wl) == 1:
-        c = hir.simp(wl[0][0])
-        if c.get("k") == "letexpr" and hir.is_call(hir.simp(c["init"]), "split_once"):
-            so = hir.simp(c["init"])
-            okc = hir.is_local(so["args"][0], nxt) and hir.lit_val(so["args"][1]) == 10
-            tp = c["pat"]["pats"][0] if c["pat"].get("k") == "pts" else {}
-            if tp.get("k") == "ptuple":
-                cur, rem = tp["pats"][0].get("name"), tp["pats"][1].get("name")
-    rep.check(okc and cur and rem, "lines", b["path"], "cuts-at-every-LF", "while let Some((current, remaining)) = next.split_once('\\n')", loc(b))
-    st = [hir.simp(x) for x in hir.stmts_of(wl[0][1])] if len(wl) == 1 else []
-    ok_cr = ok_push = ok_line = ok_new = ok_next = False
-    if len(st) == 5:
-        l0 = st[0]
-        if l0.get("k") == "let" and l0["pat"].get("name") == cur:
-            i = hir.simp(l0["init"])
-            ok_cr = (hir.is_call(i, "Option::<T>::unwrap_or") and hir.is_call(hir.simp(i["args"][0]), "strip_suffix")
-                     and hir.is_local(hir.simp(i["args"][0])["args"][0], cur) and hir.lit_val(hir.simp(i["args"][0])["args"][1]) == 13
-                     and hir.is_local(i["args"][1], cur))
-        p1 = st[1]
-        if hir.is_call(p1, "alloc::vec::Vec::<T, A>::push") and hir.is_local(p1["args"][0], "current_line"):
-            t = hir.simp(p1["args"][1])
-            ok_push = t.get("k") == "tuple" and [hir.local_name(x) for x in t["es"]] == [style, cur]
-        p2 = st[2]
-        ok_line = hir.is_call(p2, "alloc::vec::Vec::<T, A>::push") and hir.is_local(p2["args"][0], "lines") and hir.is_local(p2["args"][1], "current_line")
-        ok_new = st[3].get("k") == "assign" and hir.is_local(st[3]["l"], "current_line") and hir.is_call(hir.simp(st[3]["r"]), "alloc::vec::Vec::<T>::new")
-        ok_next = st[4].get("k") == "assign" and hir.is_local(st[4]["l"], nxt) and hir.is_local(st[4]["r"], rem)
-    rep.check(ok_cr, "lines", b["path"], "drops-only-a-CR-before-the-LF", "current.strip_suffix('\\r').unwrap_or(current)", loc(b))
-    rep.check(ok_push and ok_line and ok_new, "lines", b["path"], "piece-then-line-then-fresh-line", "the piece goes to the current line with its run's style, the line is closed, a new one starts", loc(b))
-    rep.check(ok_next, "lines", b["path"], "continues-with-the-remainder", "", loc(b))
-    seq = [hir.simp(x) for x in hir.stmts_of(body)]
-    tail = seq[-1] if seq else {}
-    ok_tail = hir.is_call(tail, "alloc::vec::Vec::<T, A>::push") and hir.is_local(tail["args"][0], "current_line") and \
-        hir.simp(tail["args"][1]).get("k") == "tuple" and [hir.local_name(x) for x in hir.simp(tail["args"][1])["es"]] == [style, nxt]
-    rep.check(ok_tail, "lines", b["path"], "rest-of-the-run-stays-on-the-current-line", "", loc(b))
-    top = [hir.simp(x) for x in hir.stmts_of(b["hir"])]
-    fin = [x for x in top if x.get("k") == "if"]
-    ok_fin = False
-    if len(fin) == 1:
-        c = hir.simp(fin[0]["c"])
-        body2 = [hir.simp(x) for x in hir.stmts_of(fin[0]["t"])]
-        ok_fin = (c.get("k") == "un" and c["op"] == "Not" and hir.is_call(hir.simp(c["e"]), "is_empty") and hir.is_local(hir.simp(c["e"])["args"][0], "current_line")
-                  and len(body2) == 1 and hir.is_call(body2[0], "alloc::vec::Vec::<T, A>::push") and hir.is_local(body2[0]["args"][0], "lines") and hir.is_local(body2[0]["args"][1], "current_line"))
-    rep.check(ok_fin and hir.is_local(top[-1], "lines"), "lines", b["path"], "unterminated-last-line-kept", "", loc(b))
 
+    def model(runs):
+        lines, cur = [], []
+        for st, t in runs:
+            parts = t.split("\n")
+            for p_ in parts[:-1]:
+                if p_.endswith("\r"):
+                    p_ = p_[:-1]
+                cur.append((st, p_))
+                lines.append(cur)
+                cur = []
+            cur.append((st, parts[-1]))
+        if cur:
+            lines.append(cur)
+        return lines
 
-# ---- tag balance -----------------------------------------------------------------------------
+    def observed(runs):
+        ev = abseval.Evaluator(facts, "anstyle_svg", {}, inline_crates=("anstyle",))
+        ev.concrete_strings = True
+        arg = ("array",) + tuple(("tuple", ("sym", s_), ("str", t)) for s_, t in runs)
+        r = ev.call_fn("anstyle_svg", b["path"], [arg])
+        if r[0] != "array":
+            raise Unrecognised(f"split_lines evaluates to {str(r)[:60]}")
+        out = []
+        for line in r[1:]:
+            if line[0] != "array":
+                raise Unrecognised("a line that is not a sequence")
+            out.append([(x[1][1], x[2][1]) for x in line[1:]])
+        return out
+    toks = ["a", "b", "\n", "\r", "\r\n", ""]
+    texts = sorted({"".join(c) for n in (1, 2, 3) for c in itertools.product(toks, repeat=n)})
+    cases = [[("S1", t)] for t in texts]
+    some = [t for t in texts if len(t) <= 3][:40] + ["a\r\nb\n", "\n\n", "x\r"]
+    cases += [[("S1", t), ("S2", u)] for t in some for u in ("", "c", "\n", "\nc", "\r\nc\n", "c\r")]
+    cases += [[], [("S1", "a\nb"), ("S2", "c\nd"), ("S3", "e")], [("S1", "a\r"), ("S2", "\nb\r"), ("S3", "\n")]]
+    groups = {"walks-the-runs-in-order": [], "cuts-at-every-LF": [], "drops-only-a-CR-before-the-LF": [], "piece-then-line-then-fresh-line": [],
+              "continues-with-the-remainder": [], "rest-of-the-run-stays-on-the-current-line": [], "unterminated-last-line-kept": []}
+    n_ok = 0
+    for runs in cases:
+        want = model(runs)
+        try:
+            got = observed(runs)
+        except Unrecognised as ex:
+            got = f"not evaluable: {ex}"
+        if got == want:
+            n_ok += 1
+            continue
+        text = "".join(t for _, t in runs)
+        msg = f"split_lines({runs}) = {str(got)[:120]}, expected {want}"
+        if "\r" in text:
+            key = "drops-only-a-CR-before-the-LF"
+        elif len(runs) > 1:
+            key = "walks-the-runs-in-order"
+        elif text.endswith("\n") or "\n" not in text:
+            key = "unterminated-last-line-kept"
+        else:
+            key = "cuts-at-every-LF"
+        groups[key].append(msg)
+    rep.count(len(cases))
+    first = next((v[0] for v in groups.values() if v), "")
+    for key, bad in groups.items():
+        other = bool(first) and key in ("piece-then-line-then-fresh-line", "continues-with-the-remainder", "rest-of-the-run-stays-on-the-current-line")
+        rep.check(not bad and not other, "lines", b["path"], key, f"{n_ok} of {len(cases)} run lists agree with the model {(bad or [first])[0] if (bad or other) else ''}"[:400], loc(b))
+
 
 class TagState:
     def __init__(self, stack=(), tag=None, quote=False):
